@@ -210,8 +210,12 @@ def finish_tx(res, case, stats, undeliverable):
 @st.composite
 def env_cases(draw, tier="quick"):
     n = draw(st.integers(2, 8))
-    gaps = draw(st.lists(st.one_of(st.sampled_from([60 * US, 3600 * US, 86400 * US, 8 * 3600 * US, 3 * 86400 * US]), st.integers(2 * US, 100000 * US)),
+    # 31 / 28 / 30 / 365 days after 2019-01-02 land on the same day of the month (Feb 2, Mar 2, ...): sparse grids
+    gaps = draw(st.lists(st.one_of(st.sampled_from([60 * US, 3600 * US, 86400 * US, 8 * 3600 * US, 3 * 86400 * US]), st.integers(2 * US, 100000 * US),
+                                   st.sampled_from([31 * 86400 * US, 28 * 86400 * US, 30 * 86400 * US, 365 * 86400 * US])),
                          min_size=n, max_size=n))
+    if draw(st.sampled_from([False, False, False, True])):
+        gaps = [31 * 86400 * US, 28 * 86400 * US, 31 * 86400 * US, 30 * 86400 * US, 31 * 86400 * US, 30 * 86400 * US, 31 * 86400 * US, 31 * 86400 * US][:n]
     grid = []
     t = draw(st.sampled_from([0, 14 * 3600 * US, 5 * 3600 * US]))     # T0 is 09:30: offsets move date boundaries around
     for g in gaps:
